@@ -5,7 +5,7 @@ ANCHORS = K.ANCHORS
 
 
 def run(ctx, res):
-    nw = ctx.n(170, 3000)
+    nw = ctx.n(320, 4000)
     pool, cmp_, spv, viol, runs, stats, facts = K.run_worlds(ctx, nw)
     K.correspondences(ctx, res, [], cmp_, spv)
     res.oracle_runs += runs
